@@ -13,7 +13,7 @@ info = {
     'C04-a': ("TDX components typed 'TDX Module' are skipped in the comparison", "a component at index >= 2 with that type text and an SVN above the platform's", "the descriptive category / type texts of the components vary per level over six layouts (Intel's, every component 'TDX Module', none, odd ones, swapped) in every C04 case", "C04"),
     'C05-a': ("zero time.Time as 'not listed': an entry dated year 1 is not revoked", "revoking entry whose date is 0001-01-01T00:00:00Z", "", None),
     'C06-a': ("first-to-expire of a group computed against element 0", "PCK CRL outliving its issuer chain with the root outliving the signer", "", None),
-    'C07-a': ("new option AcceptedTcbStatuses (a list of status names) applied to the QE identity too", "the new option set to [OutOfDate] and a QE level of that status", "a member of the API that does not exist on the unchanged tree, of a type (list of named strings) whose values only mean something to the new code: reflection finds it, but no value a generic workload could put there is known to be meaningful, and on the must-reject side an EMPTY or arbitrary list changes nothing. Out of reach of a workload written before the change; the demonstration itself has to spell the PCS status constants", "NONE"),
+    'C07-a': ("new option AcceptedTcbStatuses (a list of status names) applied to the QE identity too", "the new option set to [OutOfDate] and a QE level of that status", "unknownOptionMembers (props/common.go): exported members of verify.Options the workload does not know (found by reflection; none on the unchanged tree), each alone and all together set to a permissive-looking value of their kind (true, the largest number, every PCS status name for strings / lists / sets of strings, bytes, a non-nil pointer), against QE identities whose matching level has each non-UpToDate status and one naming another MRSIGNER: still refused", "C07"),
     'C08-a': ("allow-lists above 64 entries matched through a map keyed by [48]byte: short entries are zero-padded", "more than 64 entries, a short entry, MR_TD = entry followed by zeros", "new class mr-td-ending-in-zeros: MR_TD with a zero tail against lists of 2 ... 1001 entries holding its prefix / the value followed by zeros, first or last", "C08"),
     'C09-a': ("nil PckCertChain of a zero-length chain refused by the shared validity predicate", "message with a zero-length chain whose member is nil", "", None),
     'C10-a': ("cRLNumber range check without a nil check", "correctly signed CRL without cRLNumber", "", None),
